@@ -566,6 +566,26 @@ def rail_many(rng, n=None, kind=None):
     return "--+   " + labels + "\n  |  " + labels + "\n  +--"
 
 
+ARC_CHARS = "╭╮╰╯◜◝◟◞⤹.,'`()"
+
+
+def arc_rails():
+    """every character that draws an arc, glued by a connector to a rail with 0..6 stubs above or below it (and the mirror
+    image): contact groups of exactly four and exactly eight fragments holding an arc are what the rectangle recognisers
+    look at — among the arcs of the tables are degenerate ones (a chord longer than the diameter has no centre)"""
+    out = []
+    for a in ARC_CHARS:
+        for con in ["", "-", ">-", "<-", "--", "=", "~-", "_"]:
+            for k in range(0, 7):
+                rail = "+-" * k
+                stubs = "| " * k
+                pad = " " * (1 + len(con))
+                out.append(a + con + rail + "\n" + pad + stubs)
+                out.append(pad + stubs + "\n" + a + con + rail)
+                out.append(rail[::-1] + con[::-1].replace(">", "\0").replace("<", ">").replace("\0", "<") + a + "\n" + stubs[::-1])
+    return [t.rstrip() for t in out]
+
+
 def staircase(rng, n=None, kind=None):
     """an ascending or descending bar chart of `n` bars on a common base, or a comb with `n` teeth"""
     n = n or rng.choice([17, 33, 64, 65, 66, 70, 80])
